@@ -5,7 +5,7 @@ from func_adl.ast.func_adl_ast_utils import change_extension_functions_to_calls,
 
 from vlib.sh.common import HI, LO, TWIN, L, attr, call, const, lam, mcall, name, dump, nt, pick, same_fast, sub, tick
 
-NSHAPES = 7
+NSHAPES = 8
 OPS = list(default_list_of_functions)
 
 
@@ -71,6 +71,9 @@ def build(shape, n1, n2, na):
         return ast.Call(name(n1), [ast.Call(ast.Attribute(name("ds"), n2, L), [name("a")], []), name("b")] + extra, [])
     if shape == 4:   # attribute that is not called, subscripted attribute that is called (parameterised method)
         return call("h", ast.Attribute(name("ds"), n1, L), ast.Call(sub(ast.Attribute(name("ds"), n2, L), 0), extra, []))
+    if shape == 7:   # what an operator call returns is called on the spot (the callee is a computed expression), an operator call among its arguments
+        callee = ast.Call(ast.Attribute(attr("e", "fs"), n1, L), [], [])
+        return mcall(name("ds"), "Select", lam("e", ast.Call(callee, [ast.Call(ast.Attribute(attr("e", "js"), n2, L), extra, [])], [])))
     if shape == 6:   # operator calls that hand their arguments over by keyword (and a non-operator call with a keyword holding an operator call)
         inner = ast.Call(ast.Attribute(attr("x", "js"), n2, L), [name("k")] + extra, [ast.keyword("kw", mcall(attr("x", "tr"), "Count"))])
         return ast.Call(ast.Attribute(name("ds"), n1, L), [], [ast.keyword("f", lam("x", inner))])
@@ -81,7 +84,7 @@ def build(shape, n1, n2, na):
 
 def c17a(code: int, n1: str, n2: str) -> str:
     """
-    pre: LO <= code < HI and 0 <= code < 21
+    pre: LO <= code < HI and 0 <= code < 24
     pre: len(n1) <= 12 and len(n2) <= 12
     post: (_ == '') != TWIN
     """
@@ -107,6 +110,15 @@ def c17a(code: int, n1: str, n2: str) -> str:
         return "raised %s: %s (explicit list of names)" % (type(e).__name__, e)
     if not same_fast(pre_r, pre_expect):
         return "wrong conversion with an explicit list of names: " + dump(pre_r)
+    with nt():
+        none_q = ast.parse("ds.Select(lambda e: e.js.Where(lambda j: j.pt > 1).Count())", mode="eval").body
+        none_expect = ast.parse("ds.Select(lambda e: e.js.Where(lambda j: j.pt > 1).Count())", mode="eval").body
+    try:
+        none_r = change_extension_functions_to_calls(none_q, [])
+    except Exception as e:
+        return "raised %s: %s (empty list of names)" % (type(e).__name__, e)
+    if not same_fast(none_r, none_expect):
+        return "an empty list of names still rewrote something: " + dump(none_r)
     try:
         r = change_extension_functions_to_calls(q)
     except Exception as e:
